@@ -75,6 +75,10 @@ pub fn templates() -> Vec<Tpl> {
         ("reversed-across-lines", json!({"range": range((2, 0), (0, 4)), "text": "Q"})),
         ("mid-surrogate", json!({"range": range((1, 12), (1, 12)), "text": "S"})),
         ("col-beyond-line-0", json!({"range": range((0, 20), (0, 20)), "text": "C"})),
+        ("mid-surrogate-end-only", json!({"range": range((1, 11), (1, 12)), "text": "T"})),
+        ("mid-surrogate-start-only", json!({"range": range((1, 12), (1, 13)), "text": "U"})),
+        ("valid-start-end-beyond-line", json!({"range": range((2, 2), (2, 40)), "text": "V"})),
+        ("valid-start-end-line-beyond", json!({"range": range((2, 2), (9, 0)), "text": "W"})),
         ("u32-max", json!({"range": range((4294967295, 4294967295), (4294967295, 4294967295)), "text": "M"})),
         ("end-col-u32-max", json!({"range": range((0, 0), (0, 4294967295)), "text": "E"})),
     ];
